@@ -16,7 +16,6 @@ package swamp
 //@ func applyPatchMeta(treasureObj, guardID, meta, onCreate)
 //@   property C30
 //@   requires[record] treasureObj != nil
-//@   modifies *
 //@   ensures[nil_meta_is_noop] meta == nil ==> calls("Treasure.SetExpirationTime") == old(calls("Treasure.SetExpirationTime"))
 //@   ensures[clear_wins] meta != nil && old(meta.ClearExpiredAt) ==> calls("Treasure.SetExpirationTime") == old(calls("Treasure.SetExpirationTime")) + 1 && argsat("Treasure.SetExpirationTime", 2, "P_time_iszero")
 //@   ensures[set_exact_instant] meta != nil && !old(meta.ClearExpiredAt) && !P_time_iszero(old(meta.SetExpiredAt)) ==> calls("Treasure.SetExpirationTime") == old(calls("Treasure.SetExpirationTime")) + 1 && calledwith("Treasure.SetExpirationTime", 2, old(meta.SetExpiredAt))
@@ -28,3 +27,34 @@ package swamp
 //@   nopanic
 //@   ensures[never_is_zero_time] expirationTime == 0 ==> P_time_iszero(t)
 //@   ensures[instant] expirationTime != 0 ==> U_unixnano(t) == expirationTime
+
+// ---------------------------------------------------------------------------------------
+// PatchFields (properties C12, C13, C09). Assumed contracts of what it calls:
+//@ trusted func (github.com/hydraide/hydraide/app/core/hydra/swamp/treasure.Treasure).SetContentByteArray(t, guardID, content)
+//@ trusted func (github.com/hydraide/hydraide/app/core/hydra/swamp/treasure.Treasure).Save(t, guardID) (status)
+//@ trusted func github.com/hydraide/hydraide/app/core/hydra/swamp/treasure/msgpackpatch.Parse(body) (doc, err)
+//@ trusted func github.com/hydraide/hydraide/app/core/hydra/swamp/treasure/msgpackpatch.ApplyWithCondition(body, ops, cond) (out, err)
+//@ trusted func (github.com/hydraide/hydraide/app/core/hydra/swamp/beacon.Beacon).Get(b, key) (t)
+// CreateTreasure: get-or-create; returns a live record (body not verified here: opaque).
+//@ func (*swamp).CreateTreasure(s, key) (t)
+//@   opaque
+//@   ensures t != nil
+
+// - the record guard taken by the patch is released exactly once on every path;
+// - the stored body is replaced (and saved) exactly when the patch succeeds: a failing operation,
+//   an unmet condition or an exhausted cap leaves the record untouched;
+// - four-cell cap rule: the batch budget is spent (by exactly one) only on a transition from
+//   not-matching to matching the cap filter, never goes below zero, and such a transition without
+//   budget is rejected.
+//@ func (*swamp).PatchFields(s, key, ops, condition, opts) (res, err)
+//@   property C12 C13 C09
+//@   modifies *
+//@   ensures[guard_released_once] calls("Treasure.ReleaseTreasureGuard") - old(calls("Treasure.ReleaseTreasureGuard")) == calls("Treasure.StartTreasureGuard") - old(calls("Treasure.StartTreasureGuard"))
+//@   ensures[guard_released_is_the_one_taken] calls("Treasure.StartTreasureGuard") > old(calls("Treasure.StartTreasureGuard")) ==> calledwith("Treasure.ReleaseTreasureGuard", 1, lastret("Treasure.StartTreasureGuard"))
+//@   ensures[failure_leaves_record_untouched] res.Status != PatchStatusPatched && res.Status != PatchStatusCreated ==> calls("Treasure.SetContentByteArray") == old(calls("Treasure.SetContentByteArray")) && calls("Treasure.Save") == old(calls("Treasure.Save"))
+//@   ensures[success_writes_and_saves_once] (res.Status == PatchStatusPatched || res.Status == PatchStatusCreated) ==> calls("Treasure.SetContentByteArray") == old(calls("Treasure.SetContentByteArray")) + 1 && calls("Treasure.Save") == old(calls("Treasure.Save")) + 1
+//@   ensures[patch_error_is_reported] calls("ApplyWithCondition") > old(calls("ApplyWithCondition")) && !isnil(lastret("ApplyWithCondition", 1)) ==> res.Status != PatchStatusPatched && res.Status != PatchStatusCreated
+//@   ensures[budget_never_negative] !isnil(opts.CapBudgetLeft) && old(deref(opts.CapBudgetLeft)) >= 0 ==> deref(opts.CapBudgetLeft) >= 0
+//@   ensures[budget_spent_by_one_only] !isnil(opts.CapBudgetLeft) ==> deref(opts.CapBudgetLeft) == old(deref(opts.CapBudgetLeft)) || deref(opts.CapBudgetLeft) == old(deref(opts.CapBudgetLeft)) - 1
+//@   ensures[budget_spent_only_on_no_to_yes] !isnil(opts.CapBudgetLeft) && deref(opts.CapBudgetLeft) != old(deref(opts.CapBudgetLeft)) ==> lastretb("opts.CapPredicate") && (calls("opts.CapPredicate") == old(calls("opts.CapPredicate")) + 2 ==> !lastretb("prev:opts.CapPredicate")) && (res.Status == PatchStatusPatched || res.Status == PatchStatusCreated)
+//@   ensures[cap_exceeded_means_no_budget] res.Status == PatchStatusCapExceeded ==> (isnil(opts.CapBudgetLeft) || old(deref(opts.CapBudgetLeft)) <= 0) && lastretb("opts.CapPredicate")
